@@ -291,6 +291,27 @@ def history_same_dag(prog):
     return out
 
 
+def same_dag_twice(prog):
+    """The SAME DAGCode object generated twice (fresh generator objects): identical text both times, and the method
+    description itself (its printed form) is not changed by generating code from it."""
+    dag, _ = pg.build_dag(prog)
+    before = str(dag)
+    a = python_generate(dag)
+    mid = str(dag)
+    b = python_generate(dag)
+    c = python_generate(dag)
+    out = []
+    if mid != before or str(dag) != before:
+        out.append(("python", ["generating code changed the method description (printed DAGCode differs)"]))
+    for nm, x in (("second", b), ("third", c)):
+        if x != a:
+            import difflib
+            d = [l for l in difflib.unified_diff(a.splitlines(), x.splitlines(), lineterm="", n=0) if l[:1] in "+-" and not l.startswith(("+++", "---"))][:4]
+            out.append(("python " + nm + " invocation", d))
+            break
+    return out
+
+
 def fortran_generate_fresh_types(dag):
     """As a user would on every invocation: fresh ArrayType with default index
     variables."""
@@ -384,6 +405,9 @@ def seed_scan(prog, kind, seeds):
 
 def replay(d):
     prog, kind = d["prog"], d["kind"]
+    if d["clause"] == "same_dag_twice":
+        diff = same_dag_twice(prog)
+        return {"reproduced": bool(diff), "detail": "program %s: the same DAGCode object generated repeatedly: %s" % (prog.get("name"), diff)}
     if d["clause"] == "history_same_dag":
         diff = history_same_dag(prog)
         return {"reproduced": bool(diff),
@@ -514,6 +538,17 @@ def main(tier, seed):
         else:
             run.stats.refuted += 1
             run.candidates.append({"clause": "history_same_dag", "prog": p, "kind": "fortran", "diff": diff})
+    for p in pg.corpus():
+        run.stats.obligations += 1
+        try:
+            diff = same_dag_twice(p)
+        except Exception as e:  # noqa
+            diff = []        # generation problems are C01's business
+        if not diff:
+            run.stats.discharged += 1
+        else:
+            run.stats.refuted += 1
+            run.candidates.append({"clause": "same_dag_twice", "prog": p, "kind": "python", "diff": diff})
     run.bounds = {"programs": len(jobs), "max_order_paths_per_program_kind_universe": max_paths,
                   "universes": ["statements symbolic / names fixed", "names symbolic / statements fixed"],
                   "statements_per_phase": "<= ~8", "hash_seeds_scanned_on_replay": 32}
@@ -526,7 +561,7 @@ def main(tier, seed):
         "sorted()/natsorted() are read without forking: their result cannot depend on the iteration order of their argument",
         "set displays / comprehensions inside dagrt are not intercepted (7 sites; 5 are only used for membership or sorted; ExecutionPhase.depends_on is re-wrapped in a ranked set by a stub subclass; _ExtendedUnifier's candidate set only picks which valid match comes first)",
         "interpreter trace compared on one fixed concrete input (the order is what is symbolic here); explorations that hit the path budget are counted incomplete",
-        "history clauses are concrete: (i) P, then an unrelated Q, then P again with fresh generator objects in one process; (ii) one DAGCode object handed to separate generator objects with different options (instrumentation, state-update hooks) vs. the same generator on a fresh DAGCode",
+        "history clauses are concrete: (i) P, then an unrelated Q, then P again with fresh generator objects in one process; (ii) one DAGCode object handed to separate generator objects with different options (instrumentation, state-update hooks) vs. the same generator on a fresh DAGCode; (iii) the same DAGCode object generated three times (text identical, printed method description unchanged)",
     ]
     return run.finish(
         rule="%d programs (Fortran user-type corpus incl. multi-variable self-dependence and shared last uses; small PG corpus; seeded random); each under "
